@@ -508,6 +508,11 @@ def get_sampled_key(key_val, explore):
 
     # Get and return true minimum anyway
     minimum_key = min(key_val, key=key_val.get)
+    if explore == 0:
+        # No exploration: take the minimum itself. (Sampling from the sharply
+        # peaked distribution still broke ties at random, so the "greedy" pass of
+        # make_feasible depended on the state of the global generator)
+        return minimum_key, minimum_key
 
     # Sample keys according to probabilities obtained from softmax,
     # using appropriate scaling
